@@ -1,4 +1,5 @@
 import ColaVerif.Lemmas.ArnoldiWitness
+import ColaVerif.Lemmas.Hess3Eigs
 
 /-!
 # C15 — Arnoldi returns an orthonormal Krylov basis satisfying the Arnoldi relation
@@ -40,6 +41,21 @@ What is TRUE OF THE CODE MODEL (`Arnoldi.run`, exact arithmetic) and proved here
   matrix (spectra agree as sets; multiplicities are not treated).
 NOT proved (checked by the correspondence stream only): algebraic multiplicities of the returned
 eigenvalues, `info['errors']`, floating-point orthogonality.
+
+ROUND 2 (second half of this file; nothing above was changed):
+* `C15_krylov_span` — `span{q₀…q_{j-1}} = K_j(A, v)` (`Arnoldi.krylov`) while the steps are unclipped: the columns ARE a
+  Krylov basis;
+* `C15_subdiag_eq_krylovDist`, `C15_noClip_iff_input`, `C15_partial_input`, `C15_runs_to_cap_input`,
+  `C15_full_relation_input` — the clauses
+  `noClip` / `stopExact`, formerly conditions on the returned buffers, as conditions on the INPUTS `A`, `v`, `tol` through
+  `d_j = dist(A^j v, K_j(A, v))` (`H[j+1, j] = d_{j+1} / d_j`);
+* `C15_eigs_complete_run` / `_input` — completeness at full dimension about the ACTUAL run (`runE … .idx`);
+* `C15_arnoldiEigs_sound`, `C15_arnoldiEigs_spectrum` — about the actual output of the model's `arnoldi_eigs`
+  (`Arnoldi.arnoldiEigs`, now also executed by the driver), `xnp.eig` under the contract `EigPairs` / `EigComplete`;
+* `C15_hess3_witness` (3 × 3 non-symmetric system, all hypothesis bundles incl. the contract of `eig` hold, spectrum
+  `{1, 1 ± √5}` returned), `C15_noClipInput_counter_witness`.
+CONTRACT that remains: `xnp.eig` (LAPACK `geev`) via `EigPairs` / `EigComplete` on the one matrix it is given —
+eigenvalues over the scalar field of the model only (a real run sees the real eigenvalues).
 -/
 
 open scoped InnerProductSpace
@@ -258,3 +274,243 @@ theorem C15_untrimmed_eigs_spurious_zero :
 #print axioms C15_eigs_partial
 #print axioms C15_eigs_complete
 #print axioms C15_untrimmed_eigs_spurious_zero
+
+/-! ## Round 2: Krylov spaces, the clauses as conditions on the inputs, `arnoldi_eigs` on the actual run -/
+
+/-- **"orthonormal Krylov basis"**: for every start vector of the batch, while the first `r` steps were not clipped,
+`span{q₀ … q_{j-1}} = K_j(A, v) = span{v, A v, …, A^{j-1} v}` for every `j ≤ r + 1` -/
+theorem C15_krylov_span (A : E →ₗ[𝕜] E) (n M : Nat) (tol : ℝ) (tolPos : 0 < tol)
+    (vs : List E) (startNonzero : ∀ v ∈ vs, v ≠ 0) (v : E) (hv : v ∈ vs) (r : Nat)
+    (hr : r ≤ (runE A n M tol vs).idx)
+    (unclipped : ∀ i, i < r → tol / 2 ≤ (colAt A M tol v (runE A n M tol vs).idx).beta i) :
+    ∀ j, j ≤ r + 1 → qspan (𝕜 := 𝕜) (colAt A M tol v (runE A n M tol vs).idx).q j = krylov A v j := by
+  have hsM : (runE A n M tol vs).idx ≤ M :=
+    le_trans (run_spec (⇑A) n M ((tol : ℝ) : 𝕜) vs).2.1 (min_le_left _ _)
+  exact colAt_qspan_eq_krylov A M tol v tolPos (startNonzero v hv) r _ hr hsM unclipped
+
+/-- **the sub-diagonal of `H` is a function of the inputs**: with `d_j = dist(A^j v, K_j(A, v))` and steps
+`0..J-1` unclipped, `d_{J+1} = d_J · H[J+1, J]` -/
+theorem C15_subdiag_eq_krylovDist (A : E →ₗ[𝕜] E) (M : Nat) (tol : ℝ) (tolPos : 0 < tol) (v : E)
+    (startNonzero : v ≠ 0) (J : Nat) (hJ : J + 1 ≤ M)
+    (unclipped : ∀ i, i < J → tol / 2 ≤ (colAt A M tol v (J + 1)).beta i) :
+    krylovDist A v (J + 1) = krylovDist A v J * (colAt A M tol v (J + 1)).beta J :=
+  krylovDist_succ A M tol v tolPos startNonzero J hJ unclipped
+
+/-- **clause `noClip` is equivalent to a condition on the inputs** `A`, `v`, `tol` (`Arnoldi.NoClipInput`: the
+Krylov distances grow by at least `tol/2` per step until the space is exhausted) -/
+theorem C15_noClip_iff_input (A : E →ₗ[𝕜] E) (M : Nat) (tol : ℝ) (tolPos : 0 < tol) (v : E)
+    (startNonzero : v ≠ 0) (s : Nat) (hs : s ≤ M) :
+    NoClip tol s (colAt A M tol v s) ↔ NoClipInput A v tol s :=
+  ⟨input_of_noClip A M tol v tolPos startNonzero s hs, noClip_of_input A M tol v tolPos startNonzero s hs⟩
+
+/-- **C15 with the clause on the inputs** -/
+theorem C15_partial_input (A : E →ₗ[𝕜] E) (n M : Nat) (tol : ℝ) (tolPos : 0 < tol)
+    (vs : List E) (startNonzero : ∀ v ∈ vs, v ≠ 0)
+    (noClipInput : ∀ v ∈ vs, NoClipInput A v tol (runE A n M tol vs).idx) :
+    ∀ v ∈ vs, ArnoldiSpec A M v (runE A n M tol vs).idx (colAt A M tol v (runE A n M tol vs).idx) := by
+  have hsM : (runE A n M tol vs).idx ≤ M :=
+    le_trans (run_spec (⇑A) n M ((tol : ℝ) : 𝕜) vs).2.1 (min_le_left _ _)
+  exact C15_partial A n M tol tolPos vs startNonzero
+    (fun v hv => noClip_of_input A M tol v tolPos (startNonzero v hv) _ hsM (noClipInput v hv))
+
+/-- **clause `stopExact` from the inputs**: a single start vector runs to the cap `min max_iters n` (so for
+`max_iters ≤ n` the first alternative of `stopExact` holds) when the Krylov distances neither clip nor trigger the
+relative stopping test -/
+theorem C15_runs_to_cap_input (A : E →ₗ[𝕜] E) (n M : Nat) (tol : ℝ) (tolPos : 0 < tol) (v : E)
+    (startNonzero : v ≠ 0)
+    (noClipInput : ∀ i, i < min M n → tol / 2 * krylovDist A v i ≤ krylovDist A v (i + 1))
+    (noEarlyStopInput : ∀ k, 1 ≤ k → k < min M n →
+      tol * krylovDist A v 1 * krylovDist A v (k - 1) < krylovDist A v k * krylovDist A v 0) :
+    (runE A n M tol [v]).idx = min M n :=
+  run_idx_eq_cap_of_input A M tol v n tolPos startNonzero noClipInput noEarlyStopInput
+
+/-- **`arnoldi_eigs` at full dimension, about the ACTUAL run** (`C15_eigs_complete` was about `colAt … n`): when the
+run executed `n = dim E` steps, every eigenpair `(μ, x)` of `A` gives the eigenpair `(μ, Qᴴ x)` of the matrix the
+run hands to `xnp.eig` -/
+theorem C15_eigs_complete_run [FiniteDimensional 𝕜 E] (A : E →ₗ[𝕜] E) (n M : Nat)
+    (tol : ℝ) (tolPos : 0 < tol) (v : E) (startNonzero : v ≠ 0)
+    (dimE : Module.finrank 𝕜 E = n) (hn : 0 < n)
+    (ranToDim : (runE A n M tol [v]).idx = n)
+    (noClip : ∀ i, i + 1 < (runE A n M tol [v]).idx →
+      tol / 2 ≤ (colAt A M tol v (runE A n M tol [v]).idx).beta i)
+    (μ : 𝕜) (x : E) (hx : x ≠ 0) (heig : A x = μ • x) :
+    (∃ a, a < (runE A n M tol [v]).idx ∧ ⟪(colAt A M tol v (runE A n M tol [v]).idx).q a, x⟫_𝕜 ≠ 0) ∧
+    ∀ l, l < (runE A n M tol [v]).idx → ∑ i ∈ range (runE A n M tol [v]).idx,
+      ((eigsMatrix trimPaddingInEigs M (runE A n M tol [v]).idx
+        (colAt A M tol v (runE A n M tol [v]).idx)).getD l #[]).getD i 0 *
+          ⟪(colAt A M tol v (runE A n M tol [v]).idx).q i, x⟫_𝕜 =
+        μ * ⟪(colAt A M tol v (runE A n M tol [v]).idx).q l, x⟫_𝕜 := by
+  have hsM : (runE A n M tol [v]).idx ≤ M :=
+    le_trans (run_spec (⇑A) n M ((tol : ℝ) : 𝕜) [v]).2.1 (min_le_left _ _)
+  rw [ranToDim] at hsM noClip ⊢
+  exact C15_eigs_complete A n M tol tolPos v startNonzero dimE hn hsM noClip μ x hx heig
+
+/-- the same with every hypothesis on the inputs: `n = dim E ≤ max_iters`, Krylov distances without clip and
+without early stop -/
+theorem C15_eigs_complete_input [FiniteDimensional 𝕜 E] (A : E →ₗ[𝕜] E) (n M : Nat)
+    (tol : ℝ) (tolPos : 0 < tol) (v : E) (startNonzero : v ≠ 0)
+    (dimE : Module.finrank 𝕜 E = n) (hn : 0 < n) (hnM : n ≤ M)
+    (noClipInput : ∀ i, i < n → tol / 2 * krylovDist A v i ≤ krylovDist A v (i + 1))
+    (noEarlyStopInput : ∀ k, 1 ≤ k → k < n →
+      tol * krylovDist A v 1 * krylovDist A v (k - 1) < krylovDist A v k * krylovDist A v 0)
+    (μ : 𝕜) (x : E) (hx : x ≠ 0) (heig : A x = μ • x) :
+    (runE A n M tol [v]).idx = n ∧
+    (∃ a, a < (runE A n M tol [v]).idx ∧ ⟪(colAt A M tol v (runE A n M tol [v]).idx).q a, x⟫_𝕜 ≠ 0) ∧
+    ∀ l, l < (runE A n M tol [v]).idx → ∑ i ∈ range (runE A n M tol [v]).idx,
+      ((eigsMatrix trimPaddingInEigs M (runE A n M tol [v]).idx
+        (colAt A M tol v (runE A n M tol [v]).idx)).getD l #[]).getD i 0 *
+          ⟪(colAt A M tol v (runE A n M tol [v]).idx).q i, x⟫_𝕜 =
+        μ * ⟪(colAt A M tol v (runE A n M tol [v]).idx).q l, x⟫_𝕜 := by
+  have hcap : min M n = n := min_eq_right hnM
+  have hidx : (runE A n M tol [v]).idx = n := by
+    rw [run_idx_eq_cap_of_input A M tol v n tolPos startNonzero (by rw [hcap]; exact noClipInput)
+      (by rw [hcap]; exact noEarlyStopInput), hcap]
+  refine ⟨hidx, ?_⟩
+  apply C15_eigs_complete_run A n M tol tolPos v startNonzero dimE hn hidx _ μ x hx heig
+  rw [hidx]
+  intro i hi
+  exact (noBreakdown_iff_krylovDist A M tol v tolPos startNonzero n hnM).mpr noClipInput i (by omega)
+
+/-- **the output of the model's `arnoldi_eigs`** (`Arnoldi.arnoldiEigs`, `xnp.eig` a parameter): it returns the state of
+the run, and — if `eig` meets its contract `EigPairs` on the one matrix it is given — every returned pair
+`(eigvals[j], eigvectors[:, j])` is an eigenpair of `A`.  Clauses `noClip`, `stopExact` as in `C15_eigs_partial`. -/
+theorem C15_arnoldiEigs_sound (eig : Array (Array 𝕜) → Array 𝕜 × Array (Array 𝕜)) (A : E →ₗ[𝕜] E)
+    (n M : Nat) (tol : ℝ) (tolPos : 0 < tol) (v : E) (startNonzero : v ≠ 0)
+    (noClip : ∀ i, i + 1 < (runE A n M tol [v]).idx →
+      tol / 2 ≤ (colAt A M tol v (runE A n M tol [v]).idx).beta i)
+    (stopExact : 0 < (runE A n M tol [v]).idx ∧
+      (colAt A M tol v (runE A n M tol [v]).idx).beta ((runE A n M tol [v]).idx - 1) = 0)
+    (eigContract : EigPairs (runE A n M tol [v]).idx
+      (eigsMatrix trimPaddingInEigs M (runE A n M tol [v]).idx (colAt A M tol v (runE A n M tol [v]).idx))
+      (eig (eigsMatrix trimPaddingInEigs M (runE A n M tol [v]).idx
+        (colAt A M tol v (runE A n M tol [v]).idx))).1
+      (eig (eigsMatrix trimPaddingInEigs M (runE A n M tol [v]).idx
+        (colAt A M tol v (runE A n M tol [v]).idx))).2) :
+    (arnoldiEigs eig trimPaddingInEigs (⇑A) n M ((tol : ℝ) : 𝕜) v).2.2 = runE A n M tol [v] ∧
+    ∀ j, j < (runE A n M tol [v]).idx →
+      A ((arnoldiEigs eig trimPaddingInEigs (⇑A) n M ((tol : ℝ) : 𝕜) v).2.1.getD j 0) =
+        (arnoldiEigs eig trimPaddingInEigs (⇑A) n M ((tol : ℝ) : 𝕜) v).1.getD j 0 •
+          (arnoldiEigs eig trimPaddingInEigs (⇑A) n M ((tol : ℝ) : 𝕜) v).2.1.getD j 0 ∧
+      (arnoldiEigs eig trimPaddingInEigs (⇑A) n M ((tol : ℝ) : 𝕜) v).2.1.getD j 0 ≠ 0 := by
+  have hsM : (runE A n M tol [v]).idx ≤ M :=
+    le_trans (run_spec (⇑A) n M ((tol : ℝ) : 𝕜) [v]).2.1 (min_le_left _ _)
+  rw [arnoldiEigs_single]
+  refine ⟨rfl, fun j hj => ?_⟩
+  exact ritz_of_eigPairs tolPos startNonzero _ stopExact.1 hsM noClip stopExact.2 _ _ eigContract j hj
+
+/-- **`arnoldi_eigs` with `n = dim E` executed steps returns the spectrum of `A`** (as a set, over the scalar field of
+the model): under both parts of the contract of `eig`, `μ` is an eigenvalue of `A` iff it is one of the returned values -/
+theorem C15_arnoldiEigs_spectrum [FiniteDimensional 𝕜 E]
+    (eig : Array (Array 𝕜) → Array 𝕜 × Array (Array 𝕜)) (A : E →ₗ[𝕜] E)
+    (n M : Nat) (tol : ℝ) (tolPos : 0 < tol) (v : E) (startNonzero : v ≠ 0)
+    (dimE : Module.finrank 𝕜 E = n) (hn : 0 < n) (ranToDim : (runE A n M tol [v]).idx = n)
+    (noClip : ∀ i, i + 1 < n → tol / 2 ≤ (colAt A M tol v n).beta i)
+    (eigSound : EigPairs n (eigsMatrix trimPaddingInEigs M n (colAt A M tol v n))
+      (eig (eigsMatrix trimPaddingInEigs M n (colAt A M tol v n))).1
+      (eig (eigsMatrix trimPaddingInEigs M n (colAt A M tol v n))).2)
+    (eigComplete : EigComplete n (eigsMatrix trimPaddingInEigs M n (colAt A M tol v n))
+      (eig (eigsMatrix trimPaddingInEigs M n (colAt A M tol v n))).1) (μ : 𝕜) :
+    (∃ x : E, x ≠ 0 ∧ A x = μ • x) ↔
+      ∃ j, j < n ∧ (arnoldiEigs eig trimPaddingInEigs (⇑A) n M ((tol : ℝ) : 𝕜) v).1.getD j 0 = μ := by
+  have hsM : (runE A n M tol [v]).idx ≤ M :=
+    le_trans (run_spec (⇑A) n M ((tol : ℝ) : 𝕜) [v]).2.1 (min_le_left _ _)
+  rw [ranToDim] at hsM
+  have hcap := (inv_colAfter A M v tol startNonzero tolPos n hsM).cap_column_zero dimE hn noClip
+  rw [arnoldiEigs_single, ranToDim]
+  constructor
+  · rintro ⟨x, hx, hAx⟩
+    exact complete_of_eigComplete tolPos startNonzero n dimE hn hsM noClip _ eigComplete μ x hx hAx
+  · rintro ⟨j, hj, hμ⟩
+    have := ritz_of_eigPairs tolPos startNonzero n hn hsM noClip hcap.2 _ _ eigSound j hj
+    exact ⟨_, this.2, by rw [← hμ]; exact this.1⟩
+
+/-- **witness (3 × 3, non-symmetric `A = [[1,1,0],[2,1,1],[0,3,1]]`, `v = e₀`, `max_iters = 3`, `tol = 1/100`)** for the
+hypothesis bundles of `C15_partial`, `C15_partial_input`, `C15_eigs_partial`, `C15_eigs_complete_run`,
+`C15_arnoldiEigs_sound`, `C15_arnoldiEigs_spectrum`: three steps, `β = 2, 3, 0`, clause `noClip` and its input form hold,
+`stopExact` holds, the contract of `eig` is met by `Hess3.eigW` — and the conclusion: the model's `arnoldi_eigs` returns
+exactly the spectrum `{1, 1 − √5, 1 + √5}` of `A` -/
+theorem C15_hess3_witness :
+    (runE Hess3.A 3 3 (1 / 100) [Hess3.e 0]).idx = 3 ∧
+    NoClip (1 / 100) 3 (colAt Hess3.A 3 (1 / 100) (Hess3.e 0) 3) ∧
+    NoClipInput Hess3.A (Hess3.e 0) (1 / 100) 3 ∧
+    (colAt Hess3.A 3 (1 / 100) (Hess3.e 0) 3).beta 2 = 0 ∧
+    (∀ μ : ℝ, (∃ x : Hess3.E3, x ≠ 0 ∧ Hess3.A x = μ • x) ↔
+      ∃ j, j < 3 ∧ (arnoldiEigs Hess3.eigW trimPaddingInEigs (⇑Hess3.A) 3 3
+        (RCLike.ofReal (1 / 100 : ℝ) : ℝ) (Hess3.e 0)).1.getD j 0 = μ) ∧
+    (arnoldiEigs Hess3.eigW trimPaddingInEigs (⇑Hess3.A) 3 3 (RCLike.ofReal (1 / 100 : ℝ) : ℝ) (Hess3.e 0)).1 =
+      #[1, 1 - Real.sqrt 5, 1 + Real.sqrt 5] := by
+  have hidx : (runE Hess3.A 3 3 (1 / 100) [Hess3.e 0]).idx = 3 := by
+    rw [Hess3.idx_eq_cap 3 (1 / 100) (by norm_num) (by norm_num) (by norm_num)]; rfl
+  have hun : ∀ i, i + 1 < 3 → (1 / 100 : ℝ) / 2 ≤ (colAt Hess3.A 3 (1 / 100) (Hess3.e 0) 3).beta i := by
+    intro i hi
+    rw [Hess3.beta_any 3 (1 / 100) 3 (le_refl _) (by norm_num) (by norm_num) (by norm_num) i (by omega) (by omega)]
+    unfold Hess3.bt
+    split <;> norm_num
+  have hb := (Hess3.colAt3 3 (1 / 100) (le_refl _) (by norm_num) (by norm_num)).2.2
+  have hnc : NoClip (1 / 100) 3 (colAt Hess3.A 3 (1 / 100) (Hess3.e 0) 3) := by
+    intro i hi
+    by_cases h : i + 1 < 3
+    · exact Or.inr (hun i h)
+    · have : i = 2 := by omega
+      rw [this]; exact Or.inl hb
+  refine ⟨hidx, hnc, input_of_noClip Hess3.A 3 (1 / 100) (Hess3.e 0) (by norm_num) Hess3.e0_ne 3 (le_refl _) hnc,
+    hb, ?_, ?_⟩
+  · intro μ
+    exact C15_arnoldiEigs_spectrum Hess3.eigW Hess3.A 3 3 (1 / 100) (by norm_num) (Hess3.e 0) Hess3.e0_ne
+      Hess3.finrank_E3 (by norm_num) hidx hun
+      (Hess3.eigPairs_W (1 / 100) (by norm_num) (by norm_num))
+      (Hess3.eigComplete_W (1 / 100) (by norm_num) (by norm_num)) μ
+  · rw [arnoldiEigs_single]
+    rfl
+
+/-- **counter-witness for the input form of `noClip`**: `A = ¼·[[0,-1],[1,0]]`, `v = e₁`, `tol = 1`: the condition on the
+inputs fails (`d₁ = ¼ < tol/2 · d₀`), in accordance with `C15_noClip_clause_needed` -/
+theorem C15_noClipInput_counter_witness : ¬ NoClipInput (rot (1 / 4)) (1 : ℂ) 1 1 := by
+  intro h
+  have hnc := noClip_of_input (rot (1 / 4)) 2 1 (1 : ℂ) (by norm_num) one_ne_zero 1 (by norm_num) h
+  have hb := beta0_rot (1 / 4) (by norm_num) 2 (by norm_num) 1
+  rcases hnc 0 (by norm_num) with h0 | h0
+  · rw [hb] at h0; norm_num at h0
+  · rw [hb] at h0; norm_num at h0
+
+/-- **the full-buffer relation with both clauses on the inputs**: `noClip` as `NoClipInput`, `stopExact` as "ran to
+`max_iters`, or the Krylov space is exhausted: `dist(A^s v, K_s(A, v)) = 0`" (`s` = executed steps) -/
+theorem C15_full_relation_input (A : E →ₗ[𝕜] E) (n M : Nat) (tol : ℝ) (tolPos : 0 < tol)
+    (vs : List E) (startNonzero : ∀ v ∈ vs, v ≠ 0) (v : E) (hv : v ∈ vs)
+    (noClipInput : NoClipInput A v tol (runE A n M tol vs).idx)
+    (stopExactInput : (runE A n M tol vs).idx = M ∨ krylovDist A v (runE A n M tol vs).idx = 0) :
+    ∀ i, i < M → A ((colAt A M tol v (runE A n M tol vs).idx).q i) =
+      ∑ l ∈ range (M + 1), (colAt A M tol v (runE A n M tol vs).idx).h l i •
+        (colAt A M tol v (runE A n M tol vs).idx).q l := by
+  have hsM : (runE A n M tol vs).idx ≤ M :=
+    le_trans (run_spec (⇑A) n M ((tol : ℝ) : 𝕜) vs).2.1 (min_le_left _ _)
+  have hv0 := startNonzero v hv
+  have hnc := noClip_of_input A M tol v tolPos hv0 _ hsM noClipInput
+  apply C15_full_relation_partial A n M tol tolPos vs startNonzero v hv hnc
+  rcases stopExactInput with h | h
+  · exact Or.inl h
+  · right
+    have hinv := inv_colAfter A M v tol hv0 tolPos _ hsM
+    obtain ⟨r, hr, hun, hend⟩ := exists_rank hnc
+    by_cases hrs : r = (runE A n M tol vs).idx
+    · exfalso
+      have hpos := krylovDist_pos A M tol v tolPos hv0 _ hsM (fun i hi => hun i (by omega))
+      linarith
+    · have hrlt : r < (runE A n M tol vs).idx := lt_of_le_of_ne hr hrs
+      rcases hend with hend | hend
+      · exact absurd hend hrs
+      · exact (hinv.zero_after_breakdown tolPos r hrlt hend).1 _ hrlt
+
+
+#print axioms C15_krylov_span
+#print axioms C15_subdiag_eq_krylovDist
+#print axioms C15_noClip_iff_input
+#print axioms C15_partial_input
+#print axioms C15_runs_to_cap_input
+#print axioms C15_eigs_complete_run
+#print axioms C15_eigs_complete_input
+#print axioms C15_arnoldiEigs_sound
+#print axioms C15_arnoldiEigs_spectrum
+#print axioms C15_hess3_witness
+#print axioms C15_noClipInput_counter_witness
+#print axioms C15_full_relation_input
